@@ -186,9 +186,20 @@ impl SocksListener {
                     None
                 };
                 let target = into_unspecified(local).into();
-                let (mut listen_addr, frames) = setup_udp_session(local, remote, Some(source.ip()))
-                    .await
-                    .context("setup_udp_session")?;
+                // a relay socket that cannot be set up (the declared client address is of another
+                // family, no descriptor left) is a refusal the client has to be told about
+                let (mut listen_addr, frames) =
+                    match setup_udp_session(local, remote, Some(source.ip()))
+                        .await
+                        .context("setup_udp_session")
+                    {
+                        Ok(x) => x,
+                        Err(e) => {
+                            debug!("udp relay setup failed: {} cause: {:?}", e, e.cause);
+                            ctx.on_error(e).await;
+                            return Ok(());
+                        }
+                    };
 
                 if let Some(override_addr) = self.override_udp_address {
                     listen_addr = SocketAddr::new(override_addr, listen_addr.port());
